@@ -210,11 +210,10 @@ impl OAuthW {
         if self.now >= s.issued + OAUTH2_ACCESS_TOKEN_EXPIRY as u64 {
             return Some("the access token's lifetime is over".into());
         }
-        if let Some(t) = self.parent_logged_out {
-            // the parent login session was destroyed: enforced once the token is older than the grace window
-            if self.now >= s.issued + PAST_GRACE && self.now >= t {
-                return Some("the login session the grant came from was logged out (and the grace window is over)".into());
-            }
+        if self.parent_logged_out.is_some() {
+            // the parent login session was revoked (its record is present and says so): that is
+            // known at once, the grace window only covers a record that has not arrived yet
+            return Some("the login session the grant came from was logged out".into());
         }
         None
     }
